@@ -115,14 +115,19 @@ def constant_value(expression, bindings=None):
         # We can't look up the constant reference without the IR, but by the time
         # constant_value is called, the actual values should have been propagated to
         # the type information.
+        # A static reference to a field that is not constant has no value; it is
+        # reported by constraints.py, which runs after some users of this function.
         if expression.type.which_type == "integer":
-            assert expression.type.integer.modulus == "infinity"
+            if expression.type.integer.modulus != "infinity":
+                return None
             return int(expression.type.integer.modular_value)
         elif expression.type.which_type == "boolean":
-            assert expression.type.boolean.has_field("value")
+            if not expression.type.boolean.has_field("value"):
+                return None
             return expression.type.boolean.value
         elif expression.type.which_type == "enumeration":
-            assert expression.type.enumeration.has_field("value")
+            if not expression.type.enumeration.has_field("value"):
+                return None
             return int(expression.type.enumeration.value)
         else:
             assert False, "Unexpected expression type {}".format(
